@@ -3,6 +3,7 @@
 -/
 import Qfx.Props.C14
 import Qfx.Lemmas.SessC06
+import Qfx.Lemmas.SessValid
 import Qfx.Model.Link
 import Std.Data.String.ToInt
 namespace Qfx.Link
@@ -232,7 +233,30 @@ theorem isEmpty_false_iff (s : String) : s.isEmpty = false ↔ s ≠ "" := by
     · rfl
     · exact absurd (String.isEmpty_iff.1 hs) h
 
-/-- the default validator accepts what an engine wrote, provided every value is non-empty -/
+/-- what an engine wrote arrives with its fields in section order: the header written by `toIn` (PossDupFlag and
+    OrigSendingTime moved into it), then the remaining fields as the engine ordered them -/
+theorem toIn_secOrd (cfg : Cfg) (m : OutMsg) (ho : SecOrd (restF m)) :
+    ∃ p r, (toIn cfg m).f = p :: r ∧ Validate.isHeaderTag p.1 = true ∧ SecOrd r := by
+  refine ⟨(8, bsName cfg.bs), _, toIn_f cfg m, (show Validate.isHeaderTag 8 = true by decide), ?_⟩
+  have h1 : hdrOnly ([(35, m.kind), (49, cfg.sender), (56, cfg.target), (34, toString m.seq), (52, "@0")] ++ (dupF m ++ origF m)) = true := by
+    apply hdrOnly_append (by rfl)
+    apply hdrOnly_append
+    · unfold dupF; split <;> rfl
+    · unfold origF; split <;> rfl
+  have := SecOrd.hdr_append h1 ho
+  simpa [List.append_assoc] using this
+
+theorem toIn_has35 (cfg : Cfg) (m : OutMsg) : (toIn cfg m).f.has 35 = true := by
+  rw [toIn_f]; simp [Fields.has]
+
+/-- **the default validator (no data dictionary, any settings) accepts what an engine wrote**, provided every value is
+    non-empty and the engine ordered its own fields header-first -/
+theorem toIn_valid (cfg pcfg : Cfg) (m : OutMsg) (hne : NoEmpty (toIn pcfg m)) (ho : SecOrd (restF m))
+    (happ : cfg.validator.app = none) : Valid cfg (toIn pcfg m) := by
+  obtain ⟨p, r, hf, hp, hr⟩ := toIn_secOrd pcfg m ho
+  exact validate_noDict_ok cfg _ p r hf hp hr hne (toIn_has35 pcfg m) happ
+
+/-- no value an engine wrote is empty -/
 theorem toIn_noEmpty (cfg : Cfg) (m : OutMsg) (hs : cfg.sender ≠ "") (ht : cfg.target ≠ "") (hk : m.kind ≠ "")
     (hf : ∀ p ∈ m.f, p.2 ≠ "") : NoEmpty (toIn cfg m) := by
   intro p hp
